@@ -232,8 +232,15 @@ func checkC01(c *Ctx) {
 				pos = append(pos, [2]int{li, ci})
 			}
 		}
+		if hash64(string(j), c.Seed)%4 >= 2 {
+			// with an entry file configured the project pass analyses the same block a second way
+			files["luahelper.json"] = `{"ShowWarnFlag":1,"ProjectFiles":["an.lua"]}`
+		}
 		pc := c01Session(id, files, nil, "an.lua", text, pos)
 		desc := "annotation block\n"
+		if _, ok := files["luahelper.json"]; ok {
+			desc = "annotation block (project mode: entry an.lua)\n"
+		}
 		if t, ok := files["types.lua"]; ok {
 			desc += "-- types.lua\n" + t + "-- an.lua\n"
 		}
@@ -357,7 +364,9 @@ func checkC01(c *Ctx) {
 		"binops":        "---@type number\nlocal n = 1\n---@type string\nlocal s = \"a\"\n---@type table\nlocal t = {}\nprint(n + s, s .. t, t < n, -s, #n, n == s, n and t, not t)\n",
 		"cross_calls":   "local m = require(\"fx2\")\nm.go(1, 2)\nm.go()\nglobalfn(1)\nglobalfn(\"a\", \"b\")\n",
 	}
-	optCfg := `{"ShowWarnFlag":1,"OpenErrorTypes":[22,23,24,25,26,27,28]}`
+	optin["field_vs_method"] = "---@class P\n---@field m number\n---@field n fun(a: number): string\n\n---@type P\nObj = {}\nfunction Obj:m(a) return a end\nfunction Obj.n(a) return a end\nObj:m(1)\nprint(Obj.n(2))\n"
+	// with an entry file configured the project pass runs as well (ProjectFiles)
+	optCfg := `{"ShowWarnFlag":1,"ProjectFiles":["fx.lua"],"OpenErrorTypes":[22,23,24,25,26,27,28]}`
 	var okeys2 []string
 	for k := range optin {
 		okeys2 = append(okeys2, k)
@@ -392,6 +401,9 @@ func checkC01(c *Ctx) {
 					if strings.HasPrefix(l, "local q") {
 						pos = append(pos, [2]int{li, len(l) - 1})
 					}
+				}
+				if h%2 == 0 {
+					d.files["luahelper.json"] = `{"ShowWarnFlag":1,"ProjectFiles":["main.lua"]}`
 				}
 				add("cyclic class hierarchy\n-- types1.lua\n"+d.files["types1.lua"]+"-- types2.lua\n"+d.files["types2.lua"]+"-- types3.lua\n"+d.files["types3.lua"]+"-- main.lua\n"+text,
 					append(json.RawMessage{}, j...), c01Session(id, d.files, nil, "main.lua", text, pos))
